@@ -18,6 +18,10 @@ import (
 	"time"
 )
 
+// ExitAfterCase may be set by eval: the worker then ends (cleanly) once the current case has been recorded and
+// the parent starts a fresh child for the rest (used after an allocation that would poison the heap for later cases).
+var ExitAfterCase bool
+
 // Worker evaluates cases from..n-1 of its stripe and appends one JSON line per case to progress.
 func Worker(from, stripe, stripes, n int, progress string, eval func(i int) any) {
 	f, err := os.OpenFile(progress, os.O_APPEND|os.O_CREATE|os.O_WRONLY, 0o644)
@@ -40,6 +44,9 @@ func Worker(from, stripe, stripes, n int, progress string, eval func(i int) any)
 		}
 		w.Write(b)
 		w.WriteByte('\n')
+		if ExitAfterCase {
+			break
+		}
 	}
 	w.Flush()
 	f.Close()
@@ -131,6 +138,9 @@ func Parent(self string, n, stripes int, progressBase string, extra []string, id
 					f.Close()
 				}
 				os.Remove(progress)
+				if done < n && begun >= 0 && begun < done && !hung {
+					continue // the child ended on its own after a completed case: just start the next one
+				}
 				if done < n {
 					mu.Lock()
 					deaths++
